@@ -511,7 +511,7 @@ def cases(rng, tier):
                 out.append({"via": via, "method": m, "body": ["bytes", b"xy"], "chunked": chunked, "blocksize": bs, "hist": ["ok"]})
     if tier == "quick":
         out = [c for i, c in enumerate(out) if i % 2 == 0 or len(c["hist"]) <= 2]
-    for _ in range(2500 if tier == "quick" else 200000):
+    for _ in range(7500 if tier == "quick" else 200000):
         out.append(one_case(rng))
     return out
 
